@@ -84,8 +84,8 @@ func Decode(ctx context.Context, in bufiox.Reader) (param DecodeParam, err error
 	seqID := Bytes2Uint32NoCheck(headerMeta[Size32*2 : Size32*3])
 	param.SeqID = int32(seqID)
 
-	headerInfoSize := Bytes2Uint16NoCheck(headerMeta[Size32*3:TTHeaderMetaSize]) * 4
-	if uint32(headerInfoSize) > MaxHeaderSize || headerInfoSize < 2 {
+	headerInfoSize := uint32(Bytes2Uint16NoCheck(headerMeta[Size32*3:TTHeaderMetaSize])) * 4
+	if headerInfoSize > MaxHeaderSize || headerInfoSize < 2 {
 		err = fmt.Errorf("invalid header length[%d]", headerInfoSize)
 		return
 	}
@@ -116,7 +116,7 @@ func Decode(ctx context.Context, in bufiox.Reader) (param DecodeParam, err error
 		return
 	}
 
-	param.HeaderLen = int(uint32(headerInfoSize) + TTHeaderMetaSize)
+	param.HeaderLen = int(headerInfoSize + TTHeaderMetaSize)
 	param.PayloadLen = int(totalLen) + Size32 - param.HeaderLen
 	return
 }
